@@ -285,7 +285,11 @@ type viewRec struct {
 // execViewTx runs a read transaction whose steps are separated by yields, so commits (and restores) land between
 // any two of them.
 func (r *Run) execViewTx(t *Task, idx int, tx *TxPlan) {
-	t.Yield("view.begin", NeedRLock)
+	if tx.Early {
+		t.Yield("view.begin", NeedNone) // queues inside Db.View if a restore holds or awaits the lock
+	} else {
+		t.Yield("view.begin", NeedRLock)
+	}
 	id := fmt.Sprintf("%s.%d", t.Name, idx)
 	var viol *Violation
 	props := []string{"C18"}
@@ -364,6 +368,14 @@ func (r *Run) execViewTx(t *Task, idx int, tx *TxPlan) {
 // genReads produces the read steps of a view transaction.
 func (g *gen) genReads(n int) []Op {
 	var ops []Op
+	if g.cfg.Profile == "conc" && g.r.IntN(4) == 0 {
+		// a herd: the byte-identical query on the same store, over and over, by every reader that draws this script
+		// (readers that began on different committed states then evaluate the same text at the same moment)
+		for i := 0; i < n+2; i++ {
+			ops = append(ops, Op{K: "query", S: StPeople, N: 0})
+		}
+		return ops
+	}
 	for i := 0; i < n; i++ {
 		var op Op
 		sel := g.r.IntN(9)
